@@ -138,7 +138,12 @@ func (fc *FnCtx) val(v ssa.Value) (Val, error) {
 		return Val{Typ: x.Type(), Loc: &Loc{Kind: locGlobal, Comp: "G." + smtIdent(x.Pkg.Pkg.Path()+"."+x.Name()), Typ: t}}, nil
 	case *ssa.Function:
 		n := "fn." + smtIdent(x.String())
-		fc.vc.declare(n, "Int")
+		if !fc.vc.declSet[n] {
+			fc.vc.declare(n, "Int")
+			a0 := baseName("alloc", 0)
+			fc.vc.declare(a0, "Int")
+			fc.vc.assertGlobal("(and (< 0 " + n + ") (<= " + n + " " + a0 + "))")
+		}
 		return Val{T: n, S: SInt, Typ: x.Type()}, nil
 	case *ssa.Builtin:
 		return Val{T: "0", S: SInt, Typ: x.Type()}, nil
@@ -652,7 +657,8 @@ func (fc *FnCtx) execInstr(ins ssa.Instruction) (terminated bool, err error) {
 			uf := "unwrap." + typeKey(x.X.Type())
 			fc.vc.declareFun(uf, []string{"Int"}, string(v.S))
 			r := fc.define(x, "("+wf+" "+v.T+")", x.Type())
-			fc.vc.assert(mkAnd(mkEq("(typeOf "+r.T+")", tid), mkNot(mkEq(r.T, "0")), mkEq("("+uf+" "+r.T+")", v.T)))
+			fc.vc.assert(mkAnd(mkEq("(typeOf "+r.T+")", tid), "(< 0 "+r.T+")", mkEq("("+uf+" "+r.T+")", v.T)))
+			fc.vc.assume(fc.cur.reach, "(<= "+r.T+" "+fc.alloc()+")")
 		}
 		return false, nil
 	case *ssa.ChangeInterface:
@@ -1770,14 +1776,14 @@ func (fc *FnCtx) callIsLight(c *ssa.CallCommon, depth int) bool {
 	name := calleeName(c)
 	if c.IsInvoke() {
 		con := fc.prog.Cons.Iface[name]
-		return con != nil && !con.ModAll && len(con.Modifies) == 0
+		return con != nil && !con.ModAll && !con.ModHeap && len(con.Modifies) == 0
 	}
 	f, ok := c.Value.(*ssa.Function)
 	if !ok {
 		return false
 	}
 	if con := fc.prog.Cons.ByFunc[f]; con != nil {
-		return !con.ModAll && len(con.Modifies) == 0
+		return !con.ModAll && !con.ModHeap && len(con.Modifies) == 0
 	}
 	if _, ok := builtinModels[name]; ok {
 		return len(builtinMods[name]) == 0 || name == "(*github.com/tokenized/pkg/wire.BlockHeader).BlockHash"
